@@ -348,6 +348,19 @@ Definition HTTP_S : str := Eval cbv in lit "http".
 Definition HTTPS_S : str := Eval cbv in lit "https".
 Definition NONE_S : str := Eval cbv in lit "None".
 
+(* the scheme's default port:  {"https": 443, "http": 80}[scheme], KeyError -> None *)
+Definition default_port (scheme : str) : option Z :=
+  if str_eqb scheme HTTPS_S then Some 443%Z else if str_eqb scheme HTTP_S then Some 80%Z else None.
+
+(* port = res.port; if port is None: port = default.  The test is "is None", not truthiness: an EXPLICIT port - also the
+   falsy 0 - is kept verbatim; only an ABSENT port (no ":port", or an empty one) takes the scheme's default *)
+Definition origin_port (scheme : str) (port : port_res) : option (option Z) :=
+  match port with
+  | PortRaises => None                          (* ValueError: not a number / out of 0..65535 *)
+  | PortSome p => Some (Some p)
+  | PortNone => Some (default_port scheme)
+  end.
+
 (* _url_to_origin; None = ValueError *)
 Definition url_to_origin (urlsplit : str -> urlsplit_res) (url : str) : option origin :=
   if str_eqb (lower url) NULL_S then Some ONull
@@ -356,14 +369,9 @@ Definition url_to_origin (urlsplit : str -> urlsplit_res) (url : str) : option o
        | UsOk scheme0 hostname port =>
            let scheme := lower scheme0 in
            if str_eqb scheme FILE_S then Some ONull
-           else match port with
-                | PortRaises => None
-                | _ =>
-                    let port' := match port with
-                                 | PortSome p => Some p
-                                 | _ => if str_eqb scheme HTTPS_S then Some 443%Z
-                                        else if str_eqb scheme HTTP_S then Some 80%Z else None
-                                 end in
+           else match origin_port scheme port with
+                | None => None
+                | Some port' =>
                     match hostname with
                     | None => None
                     | Some [] => None                           (* if not host: raise ValueError *)
